@@ -395,8 +395,7 @@ Section sound.
     kdepth s -> (forall p, parent = Some p -> depth p < depth i) -> kdepth (spawn s i parent).
   Proof.
     intros K Hp. unfold spawn, kdepth. destruct (is_live s i); simpl.
-    - destruct parent as [p|]; [|done]. intros q y. unfold fupd. destruct (Nat.eqb_spec q p) as [->|?]; [|apply K].
-      unfold set_add. destruct (mem i (kids s p)); [apply K|]. intros [?|Hy]%elem_of_app; [by apply K|]. apply elem_of_list_singleton in Hy as ->. by apply Hp.
+    - done.
     - destruct parent as [p|]; intros q y; unfold fupd.
       + destruct (Nat.eqb_spec q p) as [->|?].
         * unfold set_add. destruct (mem i (kids s p)); [apply K|].
